@@ -88,6 +88,12 @@ pub fn process_file(
         }
     }
 
+    if let Some(tok) = lex.finish() {
+        if let Err(err) = parse.feed(&tok) {
+            return Err(ErrorLoc::new(tok.loc(), err));
+        }
+    }
+
     if let Err(err) = parse.feed(&EOF) {
         return Err(ErrorLoc::new(lex.loc(), err));
     }
